@@ -175,7 +175,7 @@ def seeded(ctx, rnd, thorough):
             cases.append(run_recv(body, list(s), None))
             # the same schedule with the peer vanishing / failing at a seeded point
             cut = rnd.randint(0, max(0, flen - 1))
-            for end in ("eof", "err", "timeout"):
+            for end in ("eof", "err", "timeout", rnd.choice(["errno:ECONNABORTED", "errno:ECONNRESET", "errno:EPIPE", "errno:ENOBUFS", "errno:EINTR"])):
                 part, acc = [], 0
                 for k in s:
                     if acc + k > cut:
@@ -202,7 +202,7 @@ def seeded(ctx, rnd, thorough):
             pats.append(s)
         for p in pats:
             cases.append(run_send(mlen, list(p), None))
-            for end in ("zero", "err"):
+            for end in ("zero", "err", rnd.choice(["errno:ECONNABORTED", "errno:EPIPE", "errno:ECONNRESET"])):
                 j = rnd.randint(0, len(p))
                 q = list(p[:j])
                 if sum(q) < mlen:
